@@ -179,18 +179,7 @@ fn scrub(text: &str, purged: &[String]) -> String {
 
 /// replay = recording; after a committed purge of some elements only for what does not depend on
 /// them ("only an explicit purge removes the past"). `None` = not comparable any more.
-/// Present-day answers that are an engine error on the unchanged tree (reported as finding
-/// `present-day-evidence-status-matcher-internal-error`: `column_of` sends `(Evidence, "status")` to the
-/// index column `status`, and `init_evidence` creates no index on it, so the present-day read fails with
-/// InternalError while the same read AS OF a coordinate — re-checked against the view — answers). Exactly
-/// this (query, recorded answer) pair is set aside, counted in the histogram (`battery-error:…`); once the
-/// engine answers, the query is compared like every other.
-const KNOWN_PRESENT_DAY_ERRORS: [(&str, &str); 1] = [("k-evidence-status", "error: InternalError")];
-
 fn same_answer(i: usize, recorded: &str, now: &str, purged_since: &[String]) -> Option<bool> {
-    if i != usize::MAX && KNOWN_PRESENT_DAY_ERRORS.iter().any(|(q, a)| *q == BATTERY[i].0 && *a == recorded) {
-        return None;
-    }
     if purged_since.is_empty() {
         return Some(recorded == now);
     }
